@@ -198,6 +198,36 @@ pub fn check_nearest(run: &mut Run, lon: f64, lat: f64, class: &str) {
         Ok(id) => run.violation("C18.nearest", case(), format!("find_nearest_origin chose face {id} but face {f} is nearer by {:.3e} rad", gap)),
         Err(e) => run.violation("C18.nearest", case(), format!("find_nearest_origin {e}")),
     }
+    // the same direction handed to find_nearest_origin with theta wound by 1e2 .. 9e8 whole turns. Winding rounds theta, so the
+    // wound pair (theta, phi) is taken as the input: its direction is computed here with libm's exactly reduced sin / cos, turned
+    // back into the geographic frame, and judged against the faces nearest to THAT direction (ties within 1e-9 not judged)
+    let h = mix(lon.to_bits() ^ 0x77, lat.to_bits());
+    if h % 4 == 0 {
+        let s = to_spherical(p);
+        let turns = 10f64.powi(2 + ((h >> 4) % 7) as i32) * (1.0 + ((h >> 12) % 9) as f64) * if (h >> 20) & 1 == 0 { 1.0 } else { -1.0 };
+        let (theta, phi) = (s.theta().get() + turns * std::f64::consts::TAU, s.phi().get());
+        let u = [phi.sin() * theta.cos(), phi.sin() * theta.sin(), phi.cos()];
+        let a = crate::mon::c15::LON_OFFSET_DEG.to_radians();
+        let pw = [u[0] * a.cos() + u[1] * a.sin(), -u[0] * a.sin() + u[1] * a.cos(), u[2]];
+        let (fw, e0, e1) = nearest_face(pw);
+        // the library measures distances from theta differences; subtracting a face axis' theta from an angle of this magnitude
+        // rounds by up to half an ulp of it (1.1e-16 |theta|), on the unchanged tree as in any f64 implementation: a runner-up
+        // that is not further away than twice that is a tie at the precision the input itself allows
+        if e1 - e0 > 1e-9 + 4.5e-16 * theta.abs() {
+            run.count("wound_theta.judged");
+            if e1 - e0 < 1e-6 {
+                run.count("wound_theta.judged_within_1e-6_of_a_seam");
+            }
+            let wcase = || json!({"lon": fj(lon), "lat": fj(lat), "class": class, "theta": fj(theta), "phi": fj(phi), "turns": turns});
+            match guard(|| find_nearest_origin(a5::coordinate_systems::Spherical::new(a5::coordinate_systems::Radians::new_unchecked(theta), a5::coordinate_systems::Radians::new_unchecked(phi))).id) {
+                Ok(id) if id == fw => {}
+                Ok(id) => run.violation("C18.nearest_wound", wcase(), format!("find_nearest_origin(theta = {theta}, phi = {phi}) chose face {id} but face {fw} is nearer to that direction by {:.3e} rad", e1 - e0)),
+                Err(e) => run.violation("C18.nearest_wound", wcase(), format!("find_nearest_origin {e}")),
+            }
+        } else {
+            run.count("wound_theta.ties_not_judged");
+        }
+    }
     if run.wants_sample(class) {
         run.sample(class, || json!({"lon": lon, "lat": lat, "nearest_face": f, "runner_up_further_by_rad": gap}));
     }
